@@ -422,6 +422,18 @@ Definition acc_chat_template (m : kvs) : str := acc_string m k_chat_template [].
 (** FileType: general.file_type when > 0, else fileTypeUnknown (= 33) *)
 Definition acc_file_type (m : kvs) : N := let t := acc_uint m k_file_type 0 in if 0 <? t then t else 33.
 
+(** ggml.DetectContentType as its callers use it: the first four bytes of the blob (server code hands it a 4-byte buffer
+    or a bytes.Buffer of capacity >= 512, so a shorter blob reads as zero-padded), little endian.
+    0 unknown, 1 ggml, 2 ggmf, 3 ggjt, 4 ggla, 5 gguf *)
+Definition detect_content_type (b : list N) : N :=
+  let w := unle (firstn 4 (b ++ [0; 0; 0; 0])) in
+  if w =? 1734831468 then 1
+  else if w =? 1734831462 then 2
+  else if w =? 1734830708 then 3
+  else if w =? 1734831201 then 4
+  else if (w =? 1179993927) || (w =? 1195857222) then 5
+  else 0.
+
 (** * WriteGGUF *)
 
 (** the value types ggufWriteKV supports *)
